@@ -136,6 +136,15 @@ CHECKS = {
              "documents; the oracle checks totality, whole fixes, and encode-then-decode to 1/60000 degree, whole seconds and clamped altitude.",
         note=NOTE_COMMON + "Partial: preservation of the invariant by parseI is exercised by the model run, the statement proved is per-record safety given the invariant; the fix round trip is oracle-checked.",
     ),
+    "C18": dict(
+        technique="Lean 4 theorems about the exact formatting contract (half-unit rounding error, trimming removes only a trailing run) + text-exact correspondence of the WKT/GeoJSON encoders + per-number oracle in exact rational arithmetic",
+        text="C18_round_error / C18_formatFixed_error: rounding to d decimals (ties to even) is within half a unit of the last place for every ordinate and d; "
+             "C18_trim: trimming keeps a prefix, removes only a run of the trimmed character and leaves no trailing zero / dangling point (value unchanged); "
+             "C18_zero_digits_no_point. The encoders (WKT offset walkers incl. EMPTY members; GeoJSON nested arrays, bbox through the same handler in either "
+             "option order) are modelled as text and must equal Go's output byte for byte; every emitted numeral is re-read and checked against the exact "
+             "ordinate, and the skeleton (type, nesting, ordinate count, bbox) must be unchanged.",
+        note=NOTE_COMMON + "strconv.FormatFloat itself is trusted stdlib; the run tests it against the exact contract on every emitted number.",
+    ),
 }
 
 _PENDING = "check not built yet in this session (work in progress; see DESIGN.md §9 build order)"
